@@ -9,7 +9,7 @@ import numpy as np
 
 PROPERTY = "C04"
 CLAIM = dict(
-    text="Every call site of an alphabet of 28 date-consuming public operations (SGP4 wrapper and native SGP4, Kepler, "
+    text="Every call site of an alphabet of 31 date-consuming public operations (SGP4 wrapper and native SGP4, Kepler, "
     "J2, numerical Kepler with maneuvers, Clohessy-Wiltshire with a maneuver, analytical Sun/Moon, JPL ephemeris, frame "
     "changes through both IAU chains, ephemeris interpolation and re-sampling, node events, station visibility events, "
     "TLE writer, OPM/OEM/OMM writers and readers in KVN and XML) is executed for the full product of the 6 labels of "
@@ -32,15 +32,16 @@ RULE = (
     "instant (itself computed right after an unrelated call); non-trivial = at least one label differs from UTC; distinct by that tuple"
 )
 BOUNDS = {
-    "quick": "28 call sites x 4 instants x [6x6 labels (x 6 maneuver labels where present) + all 30 ordered label pairs of two "
+    "quick": "31 call sites x 4 instants x [6x6 labels (x 6 maneuver labels where present) + all 30 ordered label pairs of two "
     "consecutive calls at the same instant + all 30 ordered pairs with the same clock fields under two labels (pairs with UTC "
-    "only for station visibility)], all of it",
+    "only for station visibility)] with the real IERS tables, + the 6x6 label product of every call site again without any "
+    "IERS file (zero corrections), all of it",
     "thorough": "same product (the space is finite and small; nothing to deepen)",
 }
 ASSUMPTIONS = [
     "the instant of a Date is its stored TAI pair (_d, _s); a relabelled date is produced by Date.change_scale from the "
     "UTC date and accepted only if the stored pair moved by <= 2 us (else the case is dropped and counted: that is C03's subject)",
-    "real IERS tables of /repo/tests/data/pole, policy 'pass'; JPL kernel de403_2000-2020 (the 1995 instant is skipped for it)",
+    "two configurations in separate worker groups: real IERS tables of /repo/tests/data/pole and no tables at all, policy 'pass'; JPL kernel de403_2000-2020 (the 1995 instant is skipped for it)",
     "time quantisation floors: 2 us for differences of dates (each stored instant is rounded to the microsecond), "
     "50 us x |omega x r| where the Earth-rotation angle goes through a Julian-date double, 50 us x |v| for body "
     "ephemerides evaluated at a Julian-date double",
@@ -68,14 +69,26 @@ MU = 3.986004418e14
 _G = {}
 
 
+CFG0 = {"eop": "none", "policy": "pass"}  # the out-of-the-box world: no IERS files, zero corrections silently
+
+
 def setup(config):
     from beyond.config import config as bc
 
-    bc.update({"eop": {"folder": POLE, "type": "all", "missing_policy": "pass"}})
+    config = config or CFG
+    _G["config"] = dict(config)
+    if config["eop"] == "real":
+        bc.update({"eop": {"folder": POLE, "type": "all", "missing_policy": "pass"}})
+    else:
+        bc.update({"eop": {"folder": "/nonexistent/verif-no-eop-here", "missing_policy": "pass"}})
     bc.set("env", "jpl", "files", list(JPL))
-    from beyond.dates.eop import EopDb
+    if config["eop"] == "real":
+        try:
+            from beyond.dates.eop import EopDb
 
-    EopDb.db()  # must load
+            EopDb.db()  # must load
+        except Exception as e:  # reported as a violation by the first unit
+            _G["setup_error"] = repr(e)
     from beyond.env import jpl
     from beyond.frames import create_station
 
@@ -310,6 +323,38 @@ def op_ephem_iter(d):
     return out
 
 
+def op_ephem_native(d):
+    """sub-ranges of an ephemeris WITHOUT a step (the tabulated points are kept): bounds on tabulated points and 5 s
+    beside them, labelled like the argument date while the points carry the label of the epoch"""
+    from beyond.dates import timedelta
+
+    eph = _ephem(d)  # E + k * 60 s, k = 0..60, dates labelled like E
+    La, Le = d["A"].scale.name, d["E"].scale.name
+    exact = all(x in ("UTC", "TAI", "TT", "GPS") for x in (La, Le))
+    out = {}
+    for name, a, b in (("on", 600.0, 1800.0), ("inside", 605.0, 1795.0), ("outside", 595.0, 1805.0)):
+        if name == "on" and not exact:
+            # a bound meant to coincide with a point does so only to the microsecond once UT1/TDB is involved
+            for k_ in ("on_count", "on_first", "on_last", "sub_len", "sub_start", "sub_stop", "sub_interp"):
+                out[k_] = ("skip", "bound on a tabulated point with an UT1/TDB label (1 us resolution)")
+            continue
+        S = label(d["Eu"] + timedelta(seconds=a), La)
+        T = label(d["Eu"] + timedelta(seconds=b), La)
+        pts = list(eph.iter(start=S, stop=T))
+        out[name + "_count"] = ("text", str(len(pts)))
+        if pts:
+            out[name + "_first"] = ("date", pts[0].date)
+            out[name + "_last"] = ("date", pts[-1].date)
+        if name == "on":
+            sub = eph.ephem(start=S, stop=T)
+            out["sub_len"] = ("text", str(len(sub)))
+            out["sub_start"] = ("date", sub.start)
+            out["sub_stop"] = ("date", sub.stop)
+            r = sub.interpolate(S + timedelta(seconds=1))
+            out["sub_interp"] = ("state", sv6(r), "inertial", r.date)
+    return out
+
+
 def op_node_events(d):
     from beyond.dates import timedelta
     from beyond.propagators.listeners import NodeListener
@@ -462,6 +507,25 @@ def _omm(d, fmt):
     return {"elements": ("text", repr([float(v) for v in back])), "epoch": ("selfdate", back.date, d["E"])}
 
 
+def _omm_tle_epoch(d, fmt):
+    """an orbit made by Tle.orbit() (it carries the Tle object) whose own epoch is re-expressed in another scale"""
+    from beyond.io import ccsds
+    from beyond.io.tle import Tle
+
+    orb = Tle(TLE_TEXT).orbit()
+    orb.date = label(orb.date, d["E"].scale.name)
+    back = ccsds.loads(ccsds.dumps(orb, fmt=fmt))
+    return {"elements": ("text", repr([float(v) for v in back])), "epoch": ("selfdate", back.date, orb.date)}
+
+
+def op_omm_tle_epoch_kvn(d):
+    return _omm_tle_epoch(d, "kvn")
+
+
+def op_omm_tle_epoch_xml(d):
+    return _omm_tle_epoch(d, "xml")
+
+
 def op_omm_kvn(d):
     return _omm(d, "kvn")
 
@@ -490,6 +554,7 @@ OPS = {
     "frame2010": (op_frame2010, "A", "StateVector.copy(frame=ITRF)/GCRF", E_),
     "interp": (op_interp, "EA", "Ephem.interpolate", frozenset()),
     "ephem_iter": (op_ephem_iter, "EA", "Ephem.iter", A_),
+    "ephem_native": (op_ephem_native, "EA", "Ephem.iter(start,stop)-native-step", A_),
     "node_events": (op_node_events, "EA", "Orbit.iter+NodeListener", A_),
     "visibility": (op_visibility, "EA", "TopocentricFrame.visibility", E_ | A_),
     "tle": (op_tle, "E", "Tle.from_orbit", frozenset()),
@@ -503,6 +568,8 @@ OPS = {
     "oem_multi_xml": (op_oem_multi_xml, "EA", "oem.dumps-xml/segments-with-different-labels", frozenset()),
     "omm_kvn": (op_omm_kvn, "E", "omm.dumps-kvn", frozenset()),
     "omm_xml": (op_omm_xml, "E", "omm.dumps-xml", frozenset()),
+    "omm_tle_epoch_kvn": (op_omm_tle_epoch_kvn, "E", "omm.dumps-kvn/relabelled-epoch-of-Tle.orbit()", frozenset()),
+    "omm_tle_epoch_xml": (op_omm_tle_epoch_xml, "E", "omm.dumps-xml/relabelled-epoch-of-Tle.orbit()", frozenset()),
 }
 
 
@@ -659,6 +726,9 @@ def check_case(case, t):
             t.fail(f"scale-label/{site}/{wh}/missing-result", "same results whatever the label", case, name, sorted(got))
             continue
         kind = r[0]
+        if g[0] == "skip" or kind == "skip":
+            t.exclude((g if g[0] == "skip" else r)[1])
+            continue
         if kind == "state":
             x0, x1, sk = r[1], g[1], r[2]
             # a state is judged at the date it carries (the date itself is judged below)
@@ -749,20 +819,35 @@ def units(tier, seed):
         for inst in INSTANTS:
             for part in ("labels", "same-instant", "same-fields"):
                 u.append((CFG, dict(op=op, instant=inst, part=part)))
+            # without IERS files (zero corrections): the label products; the call sequences are the business of the first group
+            u.append((CFG0, dict(op=op, instant=inst, part="labels")))
     return u
+
+
+def _setup_failed(t, case):
+    if "setup_error" in _G:
+        t.fail("setup/real-tables-do-not-load", "with the IERS files configured the EOP database loads", case, "database", _G["setup_error"])
+        return True
+    return False
 
 
 def run_unit(p, t):
     op, inst, part = p["op"], p["instant"], p["part"]
+    if _setup_failed(t, dict(config=_G["config"], op="setup")):
+        return
     if part == "labels":
         for Le, La, Lm in label_sets(OPS[op][1]):
             if (Le, La, Lm) == ("UTC", "UTC", "UTC"):
                 continue
-            check_case(dict(config=CFG, op=op, instant=inst, epoch=Le, arg=La, man=Lm), t)
+            check_case(dict(config=_G["config"], op=op, instant=inst, epoch=Le, arg=La, man=Lm), t)
     else:
         for prev, cur in seq_pairs(op):
-            check_case(dict(config=CFG, op=op, instant=inst, epoch=cur, arg=cur, man=cur, mode=part, prev=prev), t)
+            check_case(dict(config=_G["config"], op=op, instant=inst, epoch=cur, arg=cur, man=cur, mode=part, prev=prev), t)
 
 
 def replay(case, t):
+    if _G.get("config") != case["config"]:
+        raise RuntimeError("replay in a process configured for %r" % (_G.get("config"),))
+    if _setup_failed(t, case) or case["op"] == "setup":
+        return
     check_case(case, t)
